@@ -296,3 +296,25 @@ def h_description(parent: int, fill: int) -> str:
     if got != sorted(exp):
         return "description under %r: warnings %r, recommendations imply %r" % (pname, got, sorted(exp))
     return ""
+
+
+# ------------------------------------------------------------------ totality on arbitrary small trees of known names
+TNAMES = ("dataset", "title", "abstract", "para", "markdown", "creator", "userId", "individualName",
+          "description", "methodStep", "dataTable", "physical", "keywordSet", "otherEntity")
+
+
+def h_total(n1: int, c1: int, n2: int, c2: int) -> str:
+    """
+    pre: 0 <= n1 < 14 and 0 <= n2 < 14 and 0 <= c1 <= 2 and 0 <= c2 <= 2
+    post: _ == ""
+    """
+    fresh()
+    texts = (None, "", "w w")
+    g = GROUP - 10                      # partition: root name * 4 + nest * 2 + root-has-text
+    root = mk(TNAMES[(g // 4) % len(TNAMES)], "r", "w" if g % 2 else None)
+    a = mk(TNAMES[cint(n1, 0, 13)], "a", texts[cint(c1, 0, 2)])
+    b = mk(TNAMES[cint(n2, 0, 13)], "b", texts[cint(c2, 0, 2)])
+    root.add_child(a)
+    (a if (g // 2) % 2 else root).add_child(b)
+    got, err = run_eval(root)
+    return err
